@@ -51,6 +51,19 @@ Definition same_ref_answer (ov op : out (option ref)) : Prop :=
   | _, _ => False
   end.
 
+(* ---------- GetTo and a result buffer that is not empty ----------
+   GetTo answers through a buffer of the caller, and the caller may hand over the buffer that holds the answer of
+   an earlier call.  The text gives the buffer no part in the answer ("gives the same answer ...", "never modifies the
+   value it reads"): the call either stores its answer in the buffer or leaves the buffer alone, so with a buffer
+   that holds [buf] it answers what it answers with an empty buffer, "nothing stored" read as "[buf] is still
+   there" - and in particular nothing is stored THROUGH what the buffer holds. *)
+Definition rebuf (buf : option ref) (o : out (option ref)) : out (option ref) :=
+  match o with
+  | Ret None e => Ret buf e
+  | Fall None => Fall buf
+  | _ => o
+  end.
+
 (* ---------- a foreign argument is refused ---------- *)
 Inductive refusal :=
 | RUnsupported      (* the unsupported-type error *)
@@ -77,7 +90,9 @@ Definition forms_demand (k : nat) : string := "agree=" ++ String.concat "." (rep
 (* ---------- the demand on a grouped HISTORY of read operations ----------
    "never modifies the value it reads": after every step of a history of reads every object the history touches is
    as it was before the first step - whatever caller-owned buffers the steps share - so every step finds the values
-   a call alone finds and answers like that call alone, in each of the three forms.
+   a call alone finds and answers like that call alone, in each of the three forms.  For a GetTo that is handed the
+   history's shared result buffer "answers like the call alone" is [rebuf]: the answer of the call alone (fresh
+   objects, a fresh buffer) where that call stores one, the buffer exactly as it was where that call stores nothing.
    k steps: alone=<by value><by pointer><by pointer-to-pointer> per step; same=<objects unchanged> per step and form *)
 Definition history_demand (k : nat) : string :=
   "alone=" ++ String.concat "." (repeat "111" k) ++ ";same=" ++ String.concat "." (repeat "111" k).
